@@ -93,9 +93,11 @@ def part_a(chk, derives):
                 reqs.append({"derive": d["name"], "item": "#[%s] %s" % (a, s)})
                 reqs.append({"derive": d["name"], "item": "#[%s(forward)] %s" % (a, s)})
                 reqs.append({"derive": d["name"], "item": "#[%s(\"{}\")] %s" % (a, s)})
+    # the same items as a `macro_rules!` expansion hands them over: every field type inside a None-delimited group
+    reqs += [dict(q, group=True) for q in reqs if "(" in q["item"] or "{" in q["item"]]
     res = svc(reqs, timeout=120)
     evaluate(chk, "a_items", reqs, res)
-    chk.part("a_items", inputs=len(reqs), derives=len(derives), shapes=len(item_shapes()))
+    chk.part("a_items", inputs=len(reqs), derives=len(derives), shapes=len(item_shapes()), note="every input also with its field types wrapped in None-delimited groups (syn::Type::Group)")
 
 
 GROWTH_WATCHDOG_US = 60_000_000
